@@ -20,7 +20,7 @@ PID = "C09"
 LEVEL = "exploration"
 CASE_TIMEOUT = 40
 RULE = (
-    "3 of 4 cases: program from the co2 grammar (1-4 helper flows h_i that only reference h_j, j>i; every while body starts with a wait; main ends in "
+    "enumerated: three hand-written program families (two flows sharing one co-won action; one match statement reached with references of different action types; an activated flow whose scope end stops an action) x ALL histories of length <= 4 (quick) / 5 (thorough) over 5-6 items incl. idle time; generated, 3 of 4 cases: program from the co2 grammar (1-4 helper flows h_i that only reference h_j, j>i; every while body starts with a wait; main ends in "
     "`match Never()`) x history of 1-30 items (Ev0..Ev3 with v in {None,0,1}; Started/Finished of the k-th running action) x 0-3 tie-break "
     "choices; 1 of 4 cases: the shipped library (core, timing, avatars) under a generated main that activates 0-5 library flows and loops over 1-4 `when <user flow> / <bot flow>` cases, with histories of user utterances (final/interim/started), Ev0 and Started/Finished of running actions (timers, utterances, gestures, CheckFlowDefinedAction); invariants I1-I6 are evaluated after the start and after every event. Non-trivial = the program forks heads (group/when) AND "
     "some flow instance with children or actions ended during the history AND the history has >= 10 events; distinct by (program, history)."
@@ -113,7 +113,71 @@ def strategy(tier):
     return _case()
 
 
+FAMILIES = {
+    # two flows co-win an identical action (shared Action object), then end at different times, with idle time in between
+    "shared-action": (
+        """flow a
+  match Ev0()
+  start UtteranceBotAction(script="same") as $x0
+  match Ev1()
+
+flow b
+  match Ev0()
+  start UtteranceBotAction(script="same") as $x0
+  match Ev2()
+  send OutB()
+
+flow main
+  start a
+  start b
+  match Never()
+""",
+        [["ev", 0, None], ["ev", 1, None], ["ev", 2, None], ["age"], ["finished", 0], ["started", 0]],
+    ),
+    # the same `match $r.Finished()` statement is reached with references of different action types
+    "ref-type-varies": (
+        """flow w $p
+  if $p == 0
+    start UtteranceBotAction(script="a") as $r
+  else
+    start GestureBotAction(gesture="g") as $r
+  match $r.Finished()
+  send OutW()
+
+flow main
+  start w 0
+  match Ev0()
+  start w 1
+  match Ev0()
+  start w 0
+  match Never()
+""",
+        [["ev", 0, None], ["finished", 0], ["finished", 1], ["started", 0], ["age"]],
+    ),
+    # activated flow restarted through when/else scopes with actions stopped by the scope end
+    "scope-stop-restart": (
+        """flow r
+  when UtteranceBotAction(script="x")
+    send OutX()
+  or when Ev1()
+    send OutY()
+  match Ev2()
+
+flow main
+  activate r
+  match Never()
+""",
+        [["ev", 1, None], ["ev", 2, None], ["finished", 0], ["started", 0], ["age"]],
+    ),
+}
+
+
 def enumerate_cases(tier):
+    for name, (text, items) in FAMILIES.items():
+        n = 4 if tier == "quick" else 5
+        for k in range(1, n + 1):
+            for h in itertools.product(items, repeat=k):
+                yield {"leg": "text", "family": name, "text": text, "hist": [list(x) for x in h], "choices": []}
     if tier != "thorough":
         return
     # exhaustive histories of length <= 4 over {Ev0, Ev1, Ev2} for programs generated from fixed seeds
@@ -189,6 +253,12 @@ def prop(case):
 
         kinds = Counter(kinds)
         mk = lambda: LibSession(text, case["choices"])  # noqa: E731
+    elif case.get("leg") == "text":
+        from collections import Counter
+
+        text = case["text"]
+        kinds = Counter({"when": 1, "startact": 1})
+        mk = lambda: smh.Session(text, case["choices"])  # noqa: E731
     else:
         text = co2.render(case["prog"])
         kinds = co2.count_kinds(case["prog"])
@@ -234,7 +304,9 @@ def prop(case):
         labels.append("while")
     if kinds["when"]:
         labels.append("when")
-    if case.get("leg") == "lib":
+    if case.get("leg") == "text":
+        labels.append("family:" + case["family"])
+    elif case.get("leg") == "lib":
         labels.append("library")
     elif any(f.get("loop") for f in case["prog"]["flows"]):
         labels.append("loops")
@@ -242,4 +314,6 @@ def prop(case):
         labels.append("tie-break-used")
     labels.append("len>=10" if fed >= 10 else "len<10")
     view = {"program": text, "history": case["hist"][:12], "flows_alive": len(s.state.flow_states)}
+    if case.get("leg") == "text":
+        nt = fed >= 3
     return ok(nt=nt, labels=labels, view=view, counters={"events_fed": fed})
